@@ -233,6 +233,15 @@ def native_playback(scratch, name, harness_timeout=900):
             return {"reproduced": None, "note": "no playback test generated"}
     else:
         tn = m.group(1)
+    # the repository's out-of-line test modules need dev-dependencies the scratch copy dropped
+    for root, _d, files in os.walk(scratch.path("src")):
+        for f in files:
+            if f.endswith(".rs") and "verif_h" not in root:
+                fp = os.path.join(root, f)
+                txt = open(fp).read()
+                new = re.sub(r"#\[cfg\(test\)\]\s*\n(\s*mod \w+;)", r"#[cfg(any())]\n\1", txt)
+                if new != txt:
+                    open(fp, "w").write(new)
     cmd = ["cargo", "kani", "playback", "-Z", "concrete-playback", "--", tn]
     rc, out2, dt2 = run(cmd, cwd=scratch.repo, timeout=1200)
     failed = bool(re.search(r"test result: FAILED|panicked at", out2))
